@@ -335,8 +335,9 @@ def run(rep, tier, seed):
         rep.violation(f"resolver-model-diff:{idx % 5}", "correspondence-diff",
                       {"what": "the model's resolver and the restated specification disagree", "case": uniq[idx][0][:400],
                        "spec": uniq[idx][1], "model": got})
+    n_cross = cross_module_probe(rep)
     rep.cov.update({
-        "evaluations": n_probe + len(uniq), "distinct_nontrivial": len(uniq),
+        "evaluations": n_probe + len(uniq) + n_cross, "distinct_nontrivial": len(uniq),
         "rule": "class tables of 1-4 generic classes (0-3 type variables in shuffled order, 1-2 bases applied to argument hints "
                 "over the class's own variables incl. nested generics, own and overriding annotations using the variables in any "
                 "order) rendered as dataclasses (every 4th also as attrs); leaf parametrised from a 6-type pool or used bare; for "
@@ -350,9 +351,83 @@ def run(rep, tier, seed):
     lg.proof_problems(rep, PID, proof)
 
 
+def cross_module_probe(rep):
+    """a bare generic model whose type variable is declared in another module with a forward-reference bound / constraints:
+    the implicit parameter names a class of the module that declares the TYPE VARIABLE"""
+    import sys
+    import types
+
+    from adaptix import Retort
+    from adaptix.load_error import LoadError
+    a = types.ModuleType("verif_c16_mod_a")
+    sys.modules[a.__name__] = a
+    exec("from dataclasses import dataclass\nfrom typing import TypeVar\n"                               # noqa: S102
+         "@dataclass\nclass Payload:\n    x: int\n"
+         "@dataclass\nclass Alt:\n    z: int\n"
+         "TP = TypeVar('TP', bound='Payload')\nTQ = TypeVar('TQ', 'Payload', 'Alt')\n", a.__dict__)
+    mods = []
+    for name, own in (("verif_c16_mod_b", "@dataclass\nclass Payload:\n    y: str\n@dataclass\nclass Alt:\n    w: str\n"),
+                      ("verif_c16_mod_c", "")):
+        m = types.ModuleType(name)
+        sys.modules[name] = m
+        exec("from dataclasses import dataclass\nfrom typing import Generic, List\nfrom verif_c16_mod_a import TP, TQ\n" + own +   # noqa: S102
+             "@dataclass\nclass Signed(Generic[TP]):\n    body: TP\n    more: List[TP]\n"
+             "@dataclass\nclass Either(Generic[TQ]):\n    v: TQ\n"
+             "@dataclass\nclass Child(Signed[TP]):\n    k: int = 0\n", m.__dict__)
+        mods.append(m)
+    n = 0
+    for m in mods:
+        label = "same-named classes in the generic's module" if hasattr(m, "Payload") else "names absent from the generic's module"
+        cases = [
+            (m.Signed, {"body": {"x": 1}, "more": [{"x": 2}]}, m.Signed(a.Payload(1), [a.Payload(2)])),
+            (m.Signed, {"body": {"y": "s"}, "more": []}, None),
+            (m.Signed[a.Payload], {"body": {"x": 1}, "more": []}, m.Signed(a.Payload(1), [])),
+            (m.Child, {"body": {"x": 1}, "more": [], "k": 3}, m.Child(a.Payload(1), [], 3)),
+            (m.Child, {"body": {"y": "s"}, "more": []}, None),
+            (m.Either, {"v": {"x": 1}}, m.Either(a.Payload(1))),
+            (m.Either, {"v": {"z": 1}}, m.Either(a.Alt(1))),
+            (m.Either, {"v": {"y": "s"}}, None),
+        ]
+        for tp, data, want in cases:
+            n += 1
+            try:
+                got = ("ok", Retort().load(data, tp))
+            except LoadError:
+                got = ("rejected", None)
+            except Exception as e:  # noqa: BLE001
+                got = ("raises " + type(e).__name__, str(e)[:100])
+            ok = got == ("ok", want) if want is not None else got[0] == "rejected"
+            if not ok:
+                rep.violation(f"cross-module-bound:{getattr(tp, '__name__', str(tp))}:{'accept' if want is not None else 'reject'}",
+                              "property-violated",
+                              {"what": f"generic model {tp} ({label}), datum {data!r}: expected "
+                                       f"{'the load to give ' + repr(want) if want is not None else 'a LoadError'}, got {got!r}"})
+            if want is not None and got[0] == "ok":
+                try:
+                    back = Retort().dump(got[1], tp)
+                    if back != data:
+                        rep.violation(f"cross-module-bound:{getattr(tp, '__name__', str(tp))}:dump", "property-violated",
+                                      {"what": f"generic model {tp} ({label}): dump gives {back!r}, expected {data!r}"})
+                except Exception as e:  # noqa: BLE001
+                    rep.violation(f"cross-module-bound:{getattr(tp, '__name__', str(tp))}:dump-raises", "property-violated",
+                                  {"what": f"generic model {tp} ({label}): dump raises {type(e).__name__}: {str(e)[:100]}"})
+    return n
+
+
 def replay(rep, body):
     from adaptix import Retort
     from adaptix.load_error import LoadError
+    if body.get("signature", "").startswith("cross-module-bound:"):
+        import lib
+        scratch = lib.ScratchReport(rep.pid, "quick", 0)
+        cross_module_probe(scratch)
+        print("recorded:", body.get("what"))
+        if body["signature"] in scratch.found:
+            print("reproduced")
+            rep.violation(body["signature"], body["kind"], body)
+        else:
+            print("does not reproduce on the current tree")
+        return
     if "classes" not in body or "field" not in body:
         print("recorded:", body.get("what"))
         rep.violation(body["signature"], body["kind"], body, no_input=body.get("no_failing_input_found", False))
